@@ -250,9 +250,10 @@ def run(tier: str) -> int:
             for kind, v in cases:
                 if (pname, kind) in NOT_A_VALUE or (pname in ONLY_KINDS and kind not in ONLY_KINDS[pname]):
                     continue
-                if kind == "jsonlist":
-                    if pname not in ONLY_KINDS:
-                        continue  # a Python list at an ordinary value position is an array / tuple of values, not a document
+                listdoc = kind == "jsonlist"
+                if listdoc:
+                    if pname == "insert_cols":
+                        continue  # (a list as the FIRST argument of insert() is a row by contract)
                     kind = "json"
                 try:
                     text = f(Q, v)
@@ -266,7 +267,7 @@ def run(tier: str) -> int:
                     alts = [json_alt(v, span, ld)] if kind == "json" else [numeric_alt(v, span)]
                 ev = lit.make_event(len(events), d, text, btext, "str", MARK, alts, sample_lex=(len(events) % 97 == 0))
                 events.append(ev)
-                meta.append((d, pname, kind, v, text))
+                meta.append((d, pname, "jsonlist" if listdoc else kind, v, text))
                 if d == "sqlite" and pname == "sel" and kind == "str" and "\0" not in v:
                     # (a NUL inside a literal ends the statement text for the C API; that is the driver's limit, not the renderer's)
                     engine_checked[0] += 1
@@ -318,7 +319,12 @@ def run(tier: str) -> int:
 
     for tid in sorted(bad, key=lambda t: (nclasses(t), len(meta[t][4]))):
         d, pname, kind, v, text = meta[tid]
-        payload = v if kind == "str" else v.value if kind in ("enum", "strenum") else json.dumps(v) if kind == "json" else None
+        payload = v if kind == "str" else v.value if kind in ("enum", "strenum") else json.dumps(v) if kind in ("json", "jsonlist") else None
+        if kind == "jsonlist" and pname not in ONLY_KINDS:
+            # a Python list at this position is wrapped as an SQL array / tuple of values, not inlined as one JSON literal
+            rep.discrepancy([[d, pname, "jsonlist", "rendered-as-array"]], {"dialect": d, "position": pname, "kind": kind, "value": repr(v), "text": text, "fault": bad[tid]["fault"]},
+                            what="a list value is not one literal token decoding to the original")
+            continue
         # alternatives: one signature per special character class present in the payload (learned from
         # single-class strings only, so a new class of failure at a known site is still new)
         classes = char_classes(payload) if payload is not None else ["-"]
